@@ -436,9 +436,26 @@ impl Format {
                     + (decomposed[5] as i64) * Unit::Second
                     + (decomposed[6] as i64) * Unit::Nanosecond;
                 // Same as Epoch::from_day_of_year, which panics when the year is out of range.
-                Epoch::maybe_from_gregorian(decomposed[0], 1, 1, 0, 0, 0, 0, ts)?
-                    + (days - 1.0) * Unit::Day
-                    + elapsed
+                let start_of_day = Epoch::maybe_from_gregorian(decomposed[0], 1, 1, 0, 0, 0, 0, ts)?
+                    + (days - 1.0) * Unit::Day;
+                if decomposed[5] >= 60 {
+                    // A sixtieth second only exists at 23:59 of a day that ends in a leap second:
+                    // check the time of day against the calendar date that this day of year denotes.
+                    let (y, m, d, _, _, _, _) =
+                        Epoch::compute_gregorian(start_of_day.duration, start_of_day.time_scale);
+                    if !crate::epoch::is_gregorian_valid(
+                        y,
+                        m,
+                        d,
+                        decomposed[3].try_into().unwrap(),
+                        decomposed[4].try_into().unwrap(),
+                        decomposed[5].try_into().unwrap(),
+                        decomposed[6].try_into().unwrap(),
+                    ) {
+                        return Err(HifitimeError::InvalidGregorianDate);
+                    }
+                }
+                start_of_day + elapsed
             }
             None => Epoch::maybe_from_gregorian(
                 decomposed[0],
